@@ -25,8 +25,8 @@ COQ_CHECK = 'Singleton.check_case'
 COQ_EXPLAIN = 'Singleton.explain_case'
 SHARD = 400
 WORKERS = 1
-RULE = ('three lock-step case kinds. single: histories over Req/OpenPool/ClosePool/OpenDone/Fault/Resume on the real '
-        'SingletonPoolSink with a mock provider (exhaustive over a 10-label alphabet to depth 4 (quick) / 5 (thorough), '
+RULE = ('three lock-step case kinds. single: histories over Req/OpenPool/Start/ClosePool/OpenDone/Fault/Resume on the real '
+        'SingletonPoolSink with a mock provider (exhaustive over a 13-label alphabet to depth 3 (quick) / 4 (thorough) and over its 9 core labels to depth 4 / 5, '
         'scenario templates with k = 1..6 concurrent first requests resumed in every rotation/reversal, seeded random '
         'histories of 4..40 labels incl. create failures, faults of old sinks, resumes of unknown/blocked tasks); '
         'ref: every Open/Close sequence up to length 9 (quick) / 12 (thorough) on the real RefCountedSink plus random '
@@ -74,11 +74,37 @@ def setup():
   from scales.sink import RefCountedSink, SharedSinkProvider, ClientMessageSink, ClientMessageSinkStack
   from scales.constants import ChannelState, SinkProperties
   from scales.message import MethodCallMessage
+  import scales.asynchronous as A
+  if not isinstance(A.gevent, SpawnProxy):
+    A.gevent = SpawnProxy(A.gevent)
   _S.update(gevent=gevent, Event=gevent.event.Event, SingletonPoolSink=SingletonPoolSink, RefCountedSink=RefCountedSink,
             SharedSinkProvider=SharedSinkProvider, ClientMessageSink=ClientMessageSink,
             ClientMessageSinkStack=ClientMessageSinkStack, ChannelState=ChannelState, SinkProperties=SinkProperties,
             MethodCallMessage=MethodCallMessage)
   _make_mocks()
+
+
+_CUR = [None]
+
+
+class SpawnProxy(object):
+  """Stands in for the `gevent` module inside scales.asynchronous: while the harness asks for it, greenlets
+  spawned by AsyncResult.Run/SafeLink are created but not started, so that the label sequence decides when
+  the greenlet of pool.Open() starts (label Start)."""
+
+  def __init__(self, real):
+    self._real = real
+
+  def __getattr__(self, name):
+    return getattr(self._real, name)
+
+  def spawn(self, fn, *a, **k):
+    w = _CUR[0]
+    if w is None or not w.capture:
+      return self._real.spawn(fn, *a, **k)
+    g = self._real.Greenlet(fn, *a, **k)
+    w.captured.append(g)
+    return g
 
 
 def settle(n=6):
@@ -252,6 +278,10 @@ class World(object):
     self.fail_create = False
     self.nopen = 0
     self.yielding = False
+    self.capture = False
+    self.captured = []
+    self.spawned = {}
+    self.spawn_order = []
 
   def ev(self, e):
     self.events.append(e)
@@ -307,6 +337,26 @@ def run_single(case):
     except Exception as e:
       w.ev(['crash', cid, type(e).__name__])
 
+  def end_step(resumed):
+    w.fail_create = False
+    for t in sorted(opens):
+      if opens[t].ready():
+        w.ev(['openres', t, bool(opens[t].successful())])
+        del opens[t]
+    steps.append({'ev': w.take(), 'pstate': int(pool.state), 'resumed': resumed,
+                  'sinks': ''.join({CS.Idle: 'I', CS.Open: 'O', CS.Closed: 'C'}.get(s.st, '?') for s in w.sinks)})
+
+  def start(t, fail):
+    gr = w.spawned.pop(t, None)
+    if gr is not None:
+      w.cur_task = t
+      w.fail_create = fail
+      greenlets.append(gr)
+      gr.start()
+    settle()
+    labels.append(['start', t, fail])
+
+  _CUR[0] = w
   try:
     for op in case['ops']:
       k = op[0]
@@ -321,14 +371,28 @@ def run_single(case):
         greenlets.append(gr)
         settle()
         labels.append(['req', bool(op[1])])
-      elif k == 'open':
+      elif k in ('open', 'open_defer'):
         t = ntask
         ntask += 1
         w.cur_task = t
-        w.fail_create = bool(op[1])
-        opens[t] = pool.Open()
+        w.capture = True
+        try:
+          opens[t] = pool.Open()
+        finally:
+          w.capture = False
+        for gr in w.captured:
+          w.spawned[t] = gr
+          w.task_of[gr] = t
+          w.spawn_order.append(t)
+        w.captured = []
         settle()
-        labels.append(['open', bool(op[1])])
+        labels.append(['openpool'])
+        if k == 'open':          # the spawned greenlet starts right away: a second label
+          end_step(False)
+          start(t, bool(op[1]))
+      elif k == 'start':
+        order = [x for x in w.spawn_order if x in w.spawned]
+        start(_sel(op[1], list(reversed(order))), bool(op[2]))
       elif k == 'close':
         pool.Close()
         settle()
@@ -357,14 +421,10 @@ def run_single(case):
         labels.append(['resume', t])
       else:
         raise ValueError(k)
-      w.fail_create = False
-      for t in sorted(opens):
-        if opens[t].ready():
-          w.ev(['openres', t, bool(opens[t].successful())])
-          del opens[t]
-      steps.append({'ev': w.take(), 'pstate': int(pool.state), 'resumed': resumed,
-                    'sinks': ''.join({CS.Idle: 'I', CS.Open: 'O', CS.Closed: 'C'}.get(s.st, '?') for s in w.sinks)})
+      end_step(resumed)
   finally:
+    _CUR[0] = None
+    w.spawned.clear()
     alive = [x for x in greenlets if not x.dead] + [e[2] for e in w.waiting.values() if not e[2].dead]
     if alive:
       g.killall(alive, block=True)
@@ -502,8 +562,9 @@ def run_impl(case):
 # generators
 # ---------------------------------------------------------------------------------------------
 LAST = ['rel', 0]
-ALPHA = [['req', False], ['open', False], ['close'], ['opendone', LAST, True], ['opendone', LAST, False],
-         ['fault', LAST], ['resume', ['rel', 0]], ['resume', ['rel', -1]], ['req', True], ['fault', ['rel', 1]]]
+CORE = [['req', False], ['open_defer'], ['start', ['rel', 0], False], ['close'], ['opendone', LAST, True], ['opendone', LAST, False],
+        ['fault', LAST], ['resume', ['rel', 0]], ['resume', ['rel', -1]]]
+ALPHA = CORE + [['open', False], ['req', True], ['fault', ['rel', 1]], ['start', ['rel', -1], True]]
 
 
 def _rand_single(r):
@@ -519,13 +580,17 @@ def _rand_single(r):
       ops.append(r.choice([['fault', LAST], ['opendone', LAST, False]]))
       continue
     if prof == 'closey' and x < 0.3:
-      ops.append(r.choice([['close'], ['open', False]]))
+      ops.append(r.choice([['close'], ['open', False], ['open_defer'], ['start', ['rel', 0], False]]))
       continue
     y = r.random()
     if y < 0.27:
       ops.append(['req', r.random() < 0.08])
-    elif y < 0.37:
+    elif y < 0.32:
       ops.append(['open', r.random() < 0.1])
+    elif y < 0.35:
+      ops.append(['open_defer'])
+    elif y < 0.39:
+      ops.append(['start', r.choice([['rel', 0], ['rel', 0], ['rel', -1], r.randrange(0, 12)]), r.random() < 0.1])
     elif y < 0.46:
       ops.append(['close'])
     elif y < 0.62:
@@ -569,6 +634,10 @@ def _templates():
   out.append({'kind': 'single', 'ops': [['open', False], ['opendone', 0, True], ['resume', 0], ['open', False], ['close'], ['req', False],
                                         ['close'], ['req', False]]})
   out.append({'kind': 'single', 'ops': [['close'], ['open', False], ['open', False], ['close'], ['req', False]]})
+  # the greenlet of pool.Open() starts late: after a close, after a request, after a second Open
+  out.append({'kind': 'single', 'ops': [['open_defer'], ['close'], ['start', 0, False], ['req', False], ['opendone', 0, True], ['resume', 0], ['resume', 1]]})
+  out.append({'kind': 'single', 'ops': [['open_defer'], ['req', False], ['start', 0, False], ['opendone', 0, True], ['resume', 0], ['resume', 1], ['close'], ['req', False]]})
+  out.append({'kind': 'single', 'ops': [['open_defer'], ['open_defer'], ['start', 1, False], ['start', 0, True], ['close'], ['close'], ['open_defer'], ['start', 2, True], ['start', 2, False]]})
   out.append({'kind': 'single', 'ops': [['req', True], ['open', True], ['req', False], ['opendone', 0, False], ['resume', 2], ['req', False]]})
   return out
 
@@ -612,10 +681,11 @@ def _rand_shared(r):
 def gen_cases(tier, seed):
   quick = tier == 'quick'
   out = list(_templates())
-  depth = 4 if quick else 5
-  for d in range(1, depth + 1):
+  for d in range(1, (3 if quick else 4) + 1):
     for combo in itertools.product(range(len(ALPHA)), repeat=d):
       out.append({'kind': 'single', 'ops': [ALPHA[i] for i in combo]})
+  for combo in itertools.product(range(len(CORE)), repeat=4 if quick else 5):
+    out.append({'kind': 'single', 'ops': [CORE[i] for i in combo]})
   # RefCountedSink: every Open/Close sequence (the holder does not matter to the code; it matters to the monitor)
   for d in range(1, (9 if quick else 12) + 1):
     for j, combo in enumerate(itertools.product((0, 1), repeat=d)):
@@ -662,7 +732,7 @@ def _mon_single(case, obs):
     evs = stp['ev']
     creates = [e for e in evs if e[0] == 'create']
     fwds = [e for e in evs if e[0] == 'fwd']
-    if lab[0] in ('req', 'open'):
+    if lab[0] in ('req', 'openpool'):
       if lab[0] == 'req':
         issued[ntask] = i
         is_req.add(ntask)
@@ -803,8 +873,10 @@ def _single_label(l):
   k = l[0]
   if k == 'req':
     return 'Req %s' % C.blit(l[1])
-  if k == 'open':
-    return 'OpenPool %s' % C.blit(l[1])
+  if k == 'openpool':
+    return 'OpenPool'
+  if k == 'start':
+    return 'Start %s %s' % (_nat(l[1]), C.blit(l[2]))
   if k == 'close':
     return 'ClosePool'
   if k == 'opendone':
@@ -895,7 +967,7 @@ def stats(cases, obs):
   labs = {}
   evs = {}
   br = dict.fromkeys(['get_none_create', 'get_closed_replace', 'get_idle_wait', 'get_share_forward', 'create_raises',
-                      'open_immediate_result', 'resume_forward_live', 'resume_forward_closed_or_opening', 'resume_crash_none',
+                      'open_counted_only', 'open_spawns_greenlet', 'start_share_result', 'start_unknown_or_started', 'resume_forward_live', 'resume_forward_closed_or_opening', 'resume_crash_none',
                       'resume_open_result', 'resume_blocked_or_unknown', 'close_underlying', 'close_counted_only',
                       'fault_propagated', 'fault_unsubscribed_or_noop', 'opendone_ok', 'opendone_noop'], 0)
   maxwait = 0
@@ -915,7 +987,9 @@ def stats(cases, obs):
         names = [e[0] for e in s['ev']]
         for nme in names:
           evs[nme] = evs.get(nme, 0) + 1
-        if lab[0] in ('req', 'open'):
+        if lab[0] == 'openpool':
+          br['open_counted_only' if names == ['openres'] else 'open_spawns_greenlet'] += 1
+        elif lab[0] in ('req', 'start'):
           if 'create' in names:
             br['get_closed_replace' if ppstate == 4 else 'get_none_create'] += 1
             w += 1
@@ -927,7 +1001,9 @@ def stats(cases, obs):
           elif 'error' in names or (names == ['openres'] and not s['ev'][0][2]):
             br['create_raises'] += 1
           elif names == ['openres']:
-            br['open_immediate_result'] += 1
+            br['start_share_result'] += 1
+          elif lab[0] == 'start':
+            br['start_unknown_or_started'] += 1
         elif lab[0] == 'resume':
           if s.get('resumed'):
             w -= 1
